@@ -18,15 +18,17 @@ impl IoError {
 pub struct Sink { inner: Vec<u8> }
 impl View for Sink { type V = Seq<u8>; uninterp spec fn view(&self) -> Seq<u8>; }
 impl Sink {
+    /// an in-memory sink (Vec<u8>): its write/write_all/flush never fail (std: `impl Write for Vec<u8>`)
+    pub uninterp spec fn infallible(&self) -> bool;
     #[verifier::external_body]
     pub fn write(&mut self, buf: &[u8]) -> (r: Result<usize, IoError>)
-        ensures match r {
+        ensures final(self).infallible() == old(self).infallible(), match r {
             Ok(n) => n <= buf@.len() && final(self)@ == old(self)@ + buf@.subrange(0, n as int),
             Err(_) => final(self)@ == old(self)@ }
     { unimplemented!() }
     #[verifier::external_body]
     pub fn write_all(&mut self, buf: &[u8]) -> (r: Result<(), IoError>)
-        ensures match r {
+        ensures final(self).infallible() == old(self).infallible(), old(self).infallible() ==> r is Ok, match r {
             Ok(_) => final(self)@ == old(self)@ + buf@,
             Err(_) => exists|k: int| #![auto] 0 <= k <= buf@.len() && final(self)@ == old(self)@ + buf@.subrange(0, k) }
     { unimplemented!() }
@@ -35,7 +37,7 @@ impl Sink {
     pub fn clear(&mut self) ensures final(self)@ == Seq::<u8>::empty() { unimplemented!() }
     #[verifier::external_body]
     pub fn flush(&mut self) -> (r: Result<(), IoError>)
-        ensures final(self)@ == old(self)@
+        ensures final(self)@ == old(self)@, final(self).infallible() == old(self).infallible(), old(self).infallible() ==> r is Ok
     { unimplemented!() }
 }
 
